@@ -148,7 +148,7 @@ func (s *stepper) judgeDone(conn int, req wire.Msg, res rawpeer.Result, calls []
 	case v.DontCare:
 		out.dontCare = true
 	case len(v.Reject) > 0:
-		if res.Msg.Type != wire.Rlerror || !inSet(v.Reject, errno) {
+		if res.Msg.Type != wire.Rlerror || (!v.AnyErrno && !inSet(v.Reject, errno)) {
 			viol("rejected-request-wrong-reply("+v.Why+")", map[string]any{"acceptable_errnos": v.Reject})
 		}
 		if len(real) > 0 {
@@ -162,7 +162,7 @@ func (s *stepper) judgeDone(conn int, req wire.Msg, res rawpeer.Result, calls []
 			viol("local-request-reached-backend", nil)
 		}
 	case len(v.ForwardFail) > 0:
-		if res.Msg.Type != wire.Rlerror || !(inSet(v.ForwardFail, errno) || (firstErr != nil && inSet(errnoSet(firstErr.ErrVal), errno))) {
+		if res.Msg.Type != wire.Rlerror || !(v.AnyErrno || inSet(v.ForwardFail, errno) || (firstErr != nil && inSet(errnoSet(firstErr.ErrVal), errno))) {
 			viol("request-must-fail("+v.Why+")", map[string]any{"acceptable_errnos": v.ForwardFail})
 		}
 	case v.LocalOrForward:
